@@ -768,12 +768,22 @@ mod bk {
     /// (defer_unchecked leaks its closure), i.e. "another thread stays pinned": after clear_with returns, a reader that
     /// obtained the first, the 32nd and the last block before the clear dereferences them -- CBMC's pointer checks fail on a
     /// deallocated object.  Both hand-offs to the guard are counted.
+    /// With the epoch held back every deferred destructor is leaked, so on the real code `Shared::into_owned` (the only way a
+    /// detached block is turned back into an owned box and freed) is never EXECUTED during clear_with.  Any execution is a
+    /// destruction behind the guard's back: reported here, and the path is cut (the 32 block destructors are not explored).
+    pub unsafe fn into_owned_outside_guard_stub<'g, T: ?Sized + crossbeam_epoch::Pointable + 'g>(s: Shared<'g, T>) -> Owned<T> where 'g: 'g {
+        assert!(false, "a detached block is destroyed outside the epoch guard");
+        kani::assume(false);
+        mem::transmute_copy::<Shared<'g, T>, Owned<T>>(&s)
+    }
+
     #[kani::proof]
     #[kani::unwind(35)]
     #[kani::stub(crossbeam_epoch::pin, pin_stub)]
     #[kani::stub(crossbeam_epoch::atomic::decompose_tag, decompose_tag_stub)]
     #[kani::stub(crossbeam_utils::Backoff::snooze, snooze_stub)]
     #[kani::stub(crossbeam_epoch::Guard::defer_unchecked, defer_leak_stub)]
+    #[kani::stub(crossbeam_epoch::Shared::into_owned, into_owned_outside_guard_stub)]
     fn c05b_reclaim_only_deferred() {
         assert!(DEFERRED_BLOCK_BATCH_SIZE == 32);
         stall(ptr::null(), 0, 0);
